@@ -33,11 +33,21 @@ func c16MW(id int) rux.HandlerFunc {
 	return func(c *rux.Context) { c16Cur.mws = append(c16Cur.mws, id) }
 }
 
-// Uses(): per-action middleware for four of the actions plus a key that is no action
+// Uses(): per-action middleware plus a key that is no action. The shape varies with the case (c16UsesMode):
+// 0: one middleware for four of the actions; 1: two middleware (in order) for those four; 2: one for each of the seven
+var c16UsesMode int
+
 func c16Uses() map[string][]rux.HandlerFunc {
 	m := map[string][]rux.HandlerFunc{}
-	for _, i := range []int{0, 3, 4, 6} {
+	acts := []int{0, 3, 4, 6}
+	if c16UsesMode == 2 {
+		acts = []int{0, 1, 2, 3, 4, 5, 6}
+	}
+	for _, i := range acts {
 		m[c16ActionNames[i]] = []rux.HandlerFunc{c16MW(i)}
+		if c16UsesMode == 1 {
+			m[c16ActionNames[i]] = append(m[c16ActionNames[i]], c16MW(20+i))
+		}
 	}
 	m["Other"] = []rux.HandlerFunc{c16MW(99)}
 	return m
@@ -136,7 +146,7 @@ func c16Gen(r *Rng, tier string, i int) Sx {
 			}
 		}
 	}
-	return L(A("c16"), I(mask), B(uses), S(base), B(strict), A(kind), S(res), LS(probes), I(ng), I(nm), B(twice))
+	return L(A("c16"), I(mask), B(uses), S(base), B(strict), A(kind), S(res), LS(probes), I(ng), I(nm), B(twice), I(r.Intn(3)))
 }
 
 func c16Exec(c Sx) (out Sx) {
@@ -193,6 +203,10 @@ func c16Exec(c Sx) (out Sx) {
 			rm = append(rm, mk(60+k))
 		}
 		twice := len(c.List) >= 11 && c.List[10].Bool()
+		c16UsesMode = 0
+		if len(c.List) >= 12 {
+			c16UsesMode = c.List[11].Int()
+		}
 		second := "/zz/" + strings.TrimLeft(base, "/")
 		if ng > 0 {
 			// group middleware added through Use inside the group: the slice grows by append
